@@ -52,9 +52,12 @@ func genC09(rt *rapid.T) c09Case {
 		if b.T == "error" && lang.Spread(rt, "keeperr", 3) != 0 {
 			b.T = "straight"
 		}
+		if i > 0 && c.Blocks[0].T == "recurse" && c.Interp && lang.Spread(rt, "alsorec", 3) != 0 {
+			b.T = "recurse" // a recursing first block is usually joined by others
+		}
 		if b.T == "recurse" {
 			// how deep the block's call chain goes: several blocks are deep at the same time
-			b.N = []int{10, 60, 110, 140}[lang.Spread(rt, "depth", 4)]
+			b.N = []int{10, 60, 110, 140, 150}[lang.Spread(rt, "depth", 5)]
 			if !c.Interp {
 				b.T = "while" // compiled routes cannot call module functions (recorded under C02)
 			}
@@ -148,7 +151,8 @@ func (c *c09Case) blockSource0(i int, b c09Block) (src string, val interface{}, 
 		}
 		return fmt.Sprintf("    $ i = 0\n    $ acc = 0\n    while i < %d {\n      if i %% 2 == 0 {\n        acc = acc + i\n      } else {\n        acc = acc - %d\n      }\n      i = i + 1\n    }\n    $ g = async {\n      $ j = 0\n      $ s = 0\n      while j < %d {\n        s = s + base1\n        j = j + 1\n      }\n      > s\n    }\n    $ inner = await g\n    > acc + inner", b.N, b.K2, b.K1), acc + inner, true
 	case "recurse":
-		return fmt.Sprintf("    > work(%d) + base0", b.N), b.N*(b.N+1)/2 + b0, true
+		// twice in a row: the block stays deep for longer, so that several blocks are deep together
+		return fmt.Sprintf("    $ a = work(%d)\n    $ b = work(%d)\n    > a + b + base0", b.N, b.N), b.N*(b.N+1) + b0, true
 	case "error":
 		return fmt.Sprintf("    $ z = base0 - base0\n    > %d / z", b.K1), nil, false
 	}
